@@ -50,6 +50,12 @@ def gen_c17():
         out.append(_theorem("tie_range_intersects", "forall a b, g_range_intersects a b = intersects a b", U))
         out.append(_theorem("tie_range_adjacent_to", "forall a b, g_range_adjacent_to a b = adjacent_to a b", U))
         out.append(_theorem("tie_range_merge", "forall a b, g_range_merge a b = merge a b", U))
+        out[1] = "From V Require Import Base.Text Base.Tie C17.Model C17.Props."
+        out.append(_theorem("now_intersects_spec", "forall a b, g_range_intersects a b = true <-> exists l, inr a l /\\ inr b l", [], "intros a b. rewrite tie_range_intersects. apply intersects_spec."))
+        out.append(_theorem("now_contains_spec", "forall a b, g_range_contains a b = true <-> forall l, inr b l -> inr a l", [], "intros a b. rewrite tie_range_contains. apply contains_spec."))
+        out.append(_theorem("now_merge_spec", "forall a b c, g_range_merge a b = Some c -> forall l, inr c l <-> inr a l \\/ inr b l", [], "intros a b c. rewrite tie_range_merge. apply merge_spec."))
+        out.append(_theorem("now_merge_defined", "forall a b, (exists c, g_range_merge a b = Some c) <-> g_range_adjacent_to a b = true \\/ g_range_intersects a b = true", [],
+                            "intros a b. rewrite tie_range_merge, tie_range_adjacent_to, tie_range_intersects. apply merge_defined."))
         out.append(_theorem("range_ops_never_underflow",
                             "forall a b, g_range_is_empty_safe a = true /\\ g_range_contains_safe a b = true /\\ g_range_intersects_safe a b = true /\\ g_range_adjacent_to_safe a b = true /\\ g_range_merge_safe a b = true",
                             [], "intros. repeat split; reflexivity."))
@@ -131,6 +137,14 @@ def gen_c16():
           "forall (s : shape) (d m : N), g_shape_saturating_sub_width_safe s d = true /\\ g_shape_sub_width_opt_safe s d = true /\\ g_shape_shrink_left_opt_safe s d = true /\\ "
           "g_shape_offset_left_opt_safe s d = true /\\ g_shape_rhs_overhead_safe m s = true /\\ g_shape_comment_safe m s = true /\\ g_shape_indented_safe m (ind s) = true",
           "intros. repeat split; reflexivity.")
+        out[1] = "From V Require Import Base.Text Base.Tie C16.Model C16.Props."
+        T("now_sub_width_total", "forall s d, (d <= width s -> g_shape_sub_width_opt s d = Some (MkShape (width s - d) (ind s) (offset s))) /\\ (width s < d -> g_shape_sub_width_opt s d = None)",
+          "intros s d. rewrite tie_shape_sub_width_opt. apply sub_width_total.")
+        T("now_right_edge_monotone", "forall s d s', (g_shape_shrink_left_opt s d = Some s' -> g_shape_used_width s' + width s' = g_shape_used_width s + width s) /\\ "
+          "(g_shape_offset_left_opt s d = Some s' -> g_shape_used_width s' + width s' = g_shape_used_width s + width s) /\\ "
+          "(g_shape_sub_width_opt s d = Some s' -> g_shape_used_width s' + width s' <= g_shape_used_width s + width s)",
+          "intros s d s'. rewrite tie_shape_shrink_left_opt, tie_shape_offset_left_opt, tie_shape_sub_width_opt, !tie_shape_used_width. apply right_edge_monotone.")
+        T("now_indent_sub_precondition", "forall a b, g_indent_sub_safe a b = true <-> (block b <= block a /\\ align b <= align a)")
         T("indent_block_unindent_never_underflows", "forall (t : N) (i : indent), g_indent_block_unindent_safe t i = true")
         T("indent_from_width_safe_iff", "forall (t : N) (h : bool) (w : N), g_indent_from_width_safe t h w = true <-> (h = true -> t <> 0)")
         _write(rel, "\n".join(out))
@@ -181,6 +195,9 @@ def gen_c06():
         out.append(_theorem("tie_flags_add", "forall a b, g_flags_add a b = flags_add a b", U))
         out.append(_theorem("tie_exit_file", "forall f check, g_exit_file f check = exit_file f check", U))
         out.append(_theorem("tie_exit_stdin", "forall f check, g_exit_stdin f check = exit_stdin f", U))
+        out[1] = "From V Require Import Base.Text Base.Tie C06.Model C06.Props."
+        out.append(_theorem("now_exit_range", "forall (f : flags) (c : bool), (g_exit_file f c = 0 \\/ g_exit_file f c = 1) /\\ (g_exit_stdin f c = 0 \\/ g_exit_stdin f c = 1)", [],
+                            "intros f c. rewrite tie_exit_file, tie_exit_stdin. apply exit_range."))
         _write(rel, "\n".join(out))
     except (R.Unsupported, AssertionError, KeyError, IndexError) as e:
         _failed(rel, "exit_ops", e)
@@ -219,6 +236,12 @@ def gen_c08():
         U = ["g_vspace", "g_vspace_safe", "vspace"]
         out.append(_theorem("tie_vspace", "forall lo hi offset n, g_vspace lo hi offset n = vspace lo hi offset n", U))
         out.append(_theorem("vspace_never_underflows", "forall lo hi offset n, g_vspace_safe lo hi offset n = true", U))
+        # the property clauses, stated about the code as it is NOW (through the tie)
+        out[3] = "From V Require Import Base.Text Base.Tie C08.Model C08.Props."
+        out.append(_theorem("now_clamp_bounds", "forall lo hi offset n : N, lo <= hi -> let k := g_vspace lo hi offset n in (lo + 1 <= offset + k /\\ offset + k <= hi + 1) \\/ (hi + 1 < offset /\\ k = 0)", [],
+                            "intros lo hi offset n H. rewrite tie_vspace. exact (clamp_bounds lo hi offset n H)."))
+        out.append(_theorem("now_clamp_idem", "forall lo hi offset n : N, lo <= hi -> g_vspace lo hi (offset + g_vspace lo hi offset n) 0 = 0", [],
+                            "intros lo hi offset n H. rewrite !tie_vspace. exact (clamp_idem lo hi offset n H)."))
         _write(rel, "\n".join(out))
     except (R.Unsupported, AssertionError, KeyError, IndexError) as e:
         _failed(rel, "vspace", e)
